@@ -11,7 +11,9 @@ def run(chk):
     proofs = lib.check_proofs(PID, extra_props=extra)
     exes = lib.build_impl(); mdl = lib.build_model()
     nstates, suite, rnd, corpus, narrow, wide = c01.build_inputs(chk, mdl)
-    plan = {"A": [(narrow, [3, 2, 0, 5])], "W": [(narrow, [3, 4, 1]), (wide, [3])],
+    have = set(narrow)
+    trip = [f for f in c01.pair_triple_accepted(mdl) if f not in have]
+    plan = {"A": [(narrow, [3, 2, 0, 5]), (trip, [3])], "W": [(narrow, [3, 4, 1]), (wide, [3]), (trip, [5])],
             "A_asan": [(narrow, [3])], "W_asan": [(narrow, [2]), (wide, [3])]}
     model_cache = {}; spec_cache = {}
     kinds = {"regname": 0, "ip4": 0, "ip6": 0, "ipfuture": 0, "nohost": 0}
